@@ -39,6 +39,14 @@ class Conversions(Contract):
         for (s, n, f) in [(True, 8, 4), (False, 8, 2), (True, 24, 12)]:
             for carrier in ('nplist:int32', 'nplist:uint8', 'arr:int16'):
                 yield dict(fmt=[s, n, f], shape=[2], vdtype='float', built_from=carrier)
+        # 2-d arrays in C and in Fortran (column-major / transposed) memory order: every position reads its own code
+        for (s, n, f) in [(True, 4, -1), (False, 3, 0), (True, 8, 3), (True, 8, -2)]:
+            for shape in ([2, 2], [2, 3]):
+                for fo in (False, True):
+                    for vdtype in ('float', 'int'):
+                        if vdtype == 'int' and f > 0:
+                            continue
+                        yield dict(fmt=[s, n, f], shape=shape, vdtype=vdtype, forder=fo)
 
     def inputs(self, cfg, D):
         s, n, f = cfg['fmt']
@@ -55,12 +63,14 @@ class Conversions(Contract):
             car = [P.npscalar(k, dt) for k in inp['k']] if kind == 'nplist' else P.arr(inp['k'], dtype=dt, shape=(2,))
             x = P.Fxp(car, s, n, f)
         else:
-            x = make_fxp(P, s, n, f, codes=inp['c'], shape=tuple(cfg['shape']), vdtype=float if cfg['vdtype'] == 'float' else int)
+            x = make_fxp(P, s, n, f, codes=inp['c'], shape=tuple(cfg['shape']), vdtype=float if cfg['vdtype'] == 'float' else int, forder=bool(cfg.get('forder')))
         o = {'get_val': x.get_val(), 'as_float': x.astype(float), 'as_int': x.astype(int), 'raw': x.raw(), 'uraw': x.uraw(),
              'call': x()}
         if cfg['shape'] == []:
             o.update(py_float=x.__float__(), py_int=x.__int__(), py_bool=x.__bool__())     # what float(x) / int(x) / bool(x) call
             o['float_is_float'] = isinstance(o['py_float'], float) or P.symbolic
+        elif len(cfg['shape']) == 2:
+            o['shapes'] = [list(o[k].shape) for k in ('get_val', 'as_float', 'as_int', 'raw', 'uraw', 'call')]
         else:
             o['item1'] = x.astype(float, index=1)
             it = x[1]          # an element object: built from a template and handed the code, its cached attributes are not refreshed
@@ -89,6 +99,8 @@ class Conversions(Contract):
             out['py_float'] = eq(M(obs['py_float']), v)
             out['py_int'] = eq(M(obs['py_int']), floor(v))
             out['py_bool'] = Iff(B(obs['py_bool']), Not(eq(cs[0], 0)))
+        elif len(cfg['shape']) == 2:
+            out['shape'] = all(sh == list(cfg['shape']) for sh in obs['shapes'])
         else:
             out['item'] = eq(M(elems(obs['item1'])[0]), scale2(cs[1], -f))
             v1 = scale2(cs[1], -f)
